@@ -6,6 +6,7 @@ import OdakModel.Geometry
 import OdakModel.Rays
 import OdakModel.Losses
 import OdakModel.Generated.Colour
+import OdakModel.Generated.GradBreakers
 import Mathlib.Logic.Function.Iterate
 
 /-!
@@ -380,5 +381,69 @@ theorem C05_linear_colour_grad_defined (c : Vec3 ℝ) :
 theorem C05_where_pow_unclamped_singular_at_zero (thr e k : Chk ℝ) :
     (Num.select (decide (thr < Chk.var 0)) (Num.powPos (Chk.var 0) e) (k * Chk.var 0)).ok = false := by
   simp [Num.powPos]
+
+/-! ## odak keeps the computation inside autograd: the constructs that leave the graph are exactly the reviewed ones
+
+`Generated/GradBreakers.lean` is regenerated from the source on every run: every `.detach()`, `.item()`, `.numpy()`, `.tolist()`, `torch.no_grad`,
+`requires_grad_(False)` and every `torch.tensor / as_tensor / from_numpy` of a non-literal in the files C05 is anchored in.  Each entry below was
+reviewed and carries its reason; none of them sits between a differentiable input (phase, amplitude, field, ray, height, colour) and the output of an
+entry point the property covers.  A new `.detach()` / `.item()` / NumPy round trip / re-created leaf changes the regenerated table and breaks this
+theorem. -/
+def reviewedGradBreakers : List (String × String × Nat × String) := [
+  ("learn.perception.color_conversion:display_color_hvs.cone_response_to_spectrum", "item", 1, "spectra and cone fundamentals are tables prepared at construction, not functions of the image"),
+  ("learn.perception.color_conversion:display_color_hvs.display_spectrum_response", "item", 3, "spectra and cone fundamentals are tables prepared at construction, not functions of the image"),
+  ("learn.perception.color_conversion:display_color_hvs.initialize_random_spectrum_normalized", "detach", 1, "spectra and cone fundamentals are tables prepared at construction, not functions of the image"),
+  ("learn.perception.color_conversion:display_color_hvs.initialize_random_spectrum_normalized", "numpy", 2, "spectra and cone fundamentals are tables prepared at construction, not functions of the image"),
+  ("learn.perception.color_conversion:display_color_hvs.initialize_random_spectrum_normalized", "torch.from_numpy", 1, "spectra and cone fundamentals are tables prepared at construction, not functions of the image"),
+  ("learn.perception.color_conversion:lab_to_srgb", "torch.tensor", 1, "constant colour matrix / illuminant built from Python floats"),
+  ("learn.perception.color_conversion:linear_rgb_to_xyz", "torch.tensor", 1, "constant colour matrix / illuminant built from Python floats"),
+  ("learn.perception.color_conversion:srgb_to_lab", "torch.tensor", 1, "constant colour matrix / illuminant built from Python floats"),
+  ("learn.perception.color_conversion:xyz_to_linear_rgb", "torch.tensor", 1, "constant colour matrix / illuminant built from Python floats"),
+  ("learn.raytracing.boundary:intersect_w_sphere", "item", 1, "text of the progress bar / log line"),
+  ("learn.raytracing.boundary:intersect_w_triangle_batch", "tolist", 1, "shape bookkeeping"),
+  ("learn.raytracing.boundary:reflect", "torch.tensor", 1, "constant"),
+  ("learn.raytracing.mesh:planar_mesh.save_heights", "detach", 1, "a copy written to disk"),
+  ("learn.raytracing.primitives:define_circle", "torch.tensor", 1, "scalar / list arguments turned into tensors"),
+  ("learn.raytracing.primitives:define_plane_mesh", "torch.tensor", 2, "scalar / list arguments turned into tensors"),
+  ("learn.raytracing.ray:create_ray_from_grid_w_luminous_angle", "detach", 2, "lattice positions of the light sources are copied into the sample array (positions are data here)"),
+  ("learn.raytracing.ray:create_ray_from_grid_w_luminous_angle", "torch.as_tensor", 1, "scalar arguments (angle limit, counts, tilt given as a list) turned into tensors"),
+  ("learn.raytracing.ray:create_ray_from_grid_w_luminous_angle", "torch.tensor", 3, "scalar arguments (angle limit, counts, tilt given as a list) turned into tensors"),
+  ("learn.raytracing.ray:create_ray_from_point_w_luminous_angle", "torch.as_tensor", 1, "scalar arguments (angle limit, counts, tilt given as a list) turned into tensors"),
+  ("learn.raytracing.ray:create_ray_from_point_w_luminous_angle", "torch.tensor", 3, "scalar arguments (angle limit, counts, tilt given as a list) turned into tensors"),
+  ("learn.tools.matrix:generate_2d_dirac_delta", "torch.as_tensor", 1, "scalar / list arguments turned into tensors"),
+  ("learn.tools.transformation:tilt_towards", "torch.tensor", 3, "scalar / list arguments turned into tensors"),
+  ("learn.wave.classical:get_angular_spectrum_kernel", "torch.tensor", 1, "the distance / sample counts enter the kernel as Python numbers (kernels are not differentiable w.r.t. the distance; not claimed by C05)"),
+  ("learn.wave.classical:get_band_limited_angular_spectrum_kernel", "detach", 1, "the 0/1 band-limit mask (piecewise constant)"),
+  ("learn.wave.classical:get_band_limited_angular_spectrum_kernel", "torch.tensor", 1, "the distance / sample counts enter the kernel as Python numbers (kernels are not differentiable w.r.t. the distance; not claimed by C05)"),
+  ("learn.wave.classical:get_impulse_response_fresnel_kernel", "torch.as_tensor", 1, "the distance / sample counts enter the kernel as Python numbers (kernels are not differentiable w.r.t. the distance; not claimed by C05)"),
+  ("learn.wave.classical:get_impulse_response_fresnel_kernel", "torch.tensor", 2, "the distance / sample counts enter the kernel as Python numbers (kernels are not differentiable w.r.t. the distance; not claimed by C05)"),
+  ("learn.wave.classical:get_incoherent_angular_spectrum_kernel", "torch.tensor", 1, "the distance / sample counts enter the kernel as Python numbers (kernels are not differentiable w.r.t. the distance; not claimed by C05)"),
+  ("learn.wave.classical:get_point_wise_impulse_response_fresnel_kernel", "detach", 1, "randomised copy of the target points (repair of finding F28)"),
+  ("learn.wave.classical:get_seperable_impulse_response_fresnel_kernel", "detach", 1, "the second 1-D kernel is a copy of the first (no parameter involved)"),
+  ("learn.wave.classical:get_seperable_impulse_response_fresnel_kernel", "torch.as_tensor", 1, "the distance / sample counts enter the kernel as Python numbers (kernels are not differentiable w.r.t. the distance; not claimed by C05)"),
+  ("learn.wave.classical:get_seperable_impulse_response_fresnel_kernel", "torch.tensor", 2, "the distance / sample counts enter the kernel as Python numbers (kernels are not differentiable w.r.t. the distance; not claimed by C05)"),
+  ("learn.wave.classical:get_transfer_function_fresnel_kernel", "torch.tensor", 1, "the distance / sample counts enter the kernel as Python numbers (kernels are not differentiable w.r.t. the distance; not claimed by C05)"),
+  ("learn.wave.classical:shift_w_double_phase", "torch.tensor", 1, "scalar / list arguments turned into tensors"),
+  ("learn.wave.classical:stochastic_gradient_descent", "item", 1, "text of the progress bar / log line"),
+  ("learn.wave.classical:stochastic_gradient_descent", "no_grad", 1, "final evaluation after the optimisation loop"),
+  ("learn.wave.lens:linear_grating", "torch.from_numpy", 1, "scalar / list arguments turned into tensors"),
+  ("learn.wave.lens:linear_grating", "torch.tensor", 2, "scalar / list arguments turned into tensors"),
+  ("learn.wave.lens:prism_grating", "torch.tensor", 2, "scalar / list arguments turned into tensors"),
+  ("learn.wave.loss:multiplane_loss.add_defocus_blur", "detach", 3, "targets, masks and depth are data prepared once, not functions of the optimised image"),
+  ("learn.wave.loss:multiplane_loss.get_targets", "detach", 3, "targets, masks and depth are data prepared once, not functions of the optimised image"),
+  ("learn.wave.loss:multiplane_loss.set_targets", "detach", 2, "targets, masks and depth are data prepared once, not functions of the optimised image"),
+  ("learn.wave.loss:perceptual_multiplane_loss.add_defocus_blur", "detach", 3, "targets, masks and depth are data prepared once, not functions of the optimised image"),
+  ("learn.wave.loss:perceptual_multiplane_loss.get_targets", "detach", 3, "targets, masks and depth are data prepared once, not functions of the optimised image"),
+  ("learn.wave.loss:perceptual_multiplane_loss.set_targets", "detach", 2, "targets, masks and depth are data prepared once, not functions of the optimised image"),
+  ("learn.wave.propagators:propagator.__call__", "detach", 1, "the kernel CACHE stores detached kernels (by design: property anchor \"kernel cache stores detached kernels only\")"),
+  ("learn.wave.propagators:propagator.__init__", "torch.tensor", 1, "scalar / list arguments turned into tensors"),
+  ("learn.wave.propagators:propagator.init_distances", "torch.as_tensor", 1, "scalar / list arguments turned into tensors"),
+  ("learn.wave.propagators:propagator.reconstruct", "detach", 1, "optional no_grad reconstruction (no_grad = True) and its detached copy"),
+  ("learn.wave.propagators:propagator.reconstruct", "no_grad", 1, "optional no_grad reconstruction (no_grad = True) and its detached copy"),
+  ("learn.wave.propagators:propagator.set_aperture", "torch.tensor", 1, "scalar / list arguments turned into tensors")
+]
+
+theorem C05_graph_leaving_constructs_are_the_reviewed_ones :
+    Gen.gradBreakers = reviewedGradBreakers.map (fun e => (e.1, e.2.1, e.2.2.1)) := by decide +kernel
 
 end Odak
